@@ -15,7 +15,7 @@ RULE = ("channel_grid: every ordered pair of ChannelIdentifier over qubit ids -2
         "duplicate; distinct = distinct canonical JSON of the generated case.")
 ASSUMPTIONS = [
     "oracle for channel matching: same qubit and (same channel or one side is ALL) - transcribed from the property statement",
-    "edge equality is only claimed for non-degenerate edges (two different qubit names); degenerate edges are generated but only symmetry of hashing is checked",
+    "an edge that names one qubit twice is a legal identifier: two edges are equal exactly when they name the same set of qubits",
     "unique_in_order is exercised with well-behaved hashables (eq consistent with hash); ChannelIdentifier objects are not fed to it because their hash is not claimed to be consistent with ALL-matching",
 ]
 CHANNELS = ["READOUT", "MICROWAVE", "FLUX", "ALL"]
@@ -169,7 +169,7 @@ def body_edges(case, ctx):
         ctx.fail("edge-foreign", f"Edge{e} equal to a non-edge object")
     if contains != [n in e for n in probe]:
         ctx.fail("edge-contains", f"Edge{e}.contains gives {contains}")
-    if nondeg:
+    if True:         # (also for an edge that names one qubit twice: equal exactly when both name the same set of qubits)
         exp = set(e) == set(f)
         if ef is not exp or fe is not exp:
             ctx.fail("edge-eq", f"Edge{e} == Edge{f}: {ef}/{fe}, oracle {exp}")
